@@ -277,6 +277,11 @@ func runEmit(_ *testing.T, e Emit) engine.Verdict {
 		var h jrpc2.Handler = func(ctx context.Context, req *jrpc2.Request) (any, error) {
 			if e.Via == "errresponse" {
 				er := &jrpc2.Error{Code: jrpc2.Code(e.Code), Message: e.Message}
+				if e.Raw && len(e.Params) > 0 {
+					// pre-encoded data put into the field by hand, white space and all
+					er.Data = append(json.RawMessage(nil), e.Params...)
+					return nil, er
+				}
 				if v := toValue(e); v != nil {
 					return nil, er.WithData(v)
 				}
@@ -643,7 +648,15 @@ func genParse(t *rapid.T) Parse {
 		return Parse{Input: engine.Bytes(ws() + "[" + ws() + strings.Join(ms, ws()+","+ws()) + ws() + "]" + ws())}
 	}
 	if rapid.IntRange(0, 5).Draw(t, "padded") == 0 {
-		ws := rapid.SampledFrom([]string{" ", "\n", "\r", "\t", "\r\n"}).Draw(t, "ws")
+		// JSON white space - and characters that only other standards call white
+		// space (VT, FF, NEL, NBSP, BOM): with those the input is no JSON at all
+		ws := rapid.SampledFrom([]string{" ", "\n", "\r", "\t", "\r\n", "\v", "\f", "\u0085", "\u00a0", "\ufeff", " \v"}).Draw(t, "ws")
+		switch rapid.IntRange(0, 2).Draw(t, "side") {
+		case 0:
+			return Parse{Input: engine.Bytes(ws + gen.InboundRecord(t))}
+		case 1:
+			return Parse{Input: engine.Bytes(gen.InboundRecord(t) + ws)}
+		}
 		return Parse{Input: engine.Bytes(ws + gen.InboundRecord(t) + ws)}
 	}
 	return Parse{Input: engine.Bytes(gen.InboundRecord(t))}
